@@ -238,6 +238,7 @@ func runC02(c *Ctx) {
 	luids := func() string {
 		return gen.Pick(r, []string{"3e7", "0x3e7", "10", "1234", "996", "012", "0b1", "0", "7fffffff", "deadbeef", "0xA", fmt.Sprintf("%x", r.Intn(1<<30))})
 	}
+	uploads := 0
 	prepCases := []struct {
 		name   string
 		params func() []string
@@ -248,7 +249,12 @@ func runC02(c *Ctx) {
 		{"fs.cat", func() []string { return []string{texts()} }}, {"fs.cp", func() []string { return []string{texts(), texts()} }},
 		{"fs.mv", func() []string { return []string{texts(), texts()} }}, {"fs.pwd", func() []string { return nil }},
 		{"fs.upload", func() []string {
-			return []string{gen.Pick(r, []string{"C:\\x.bin", "ü.txt", "a"}), gen.Pick(r, []string{"", "", "x", "content of the file", string(r.Bytes(1 + r.Intn(300)))})}
+			uploads++
+			content := gen.Pick(r, []string{"", "", "x", "content of the file", string(r.Bytes(1 + r.Intn(300)))})
+			if uploads == 1 {
+				content = "" // the empty file, every run
+			}
+			return []string{gen.Pick(r, []string{"C:\\x.bin", "ü.txt", "a"}), content}
 		}},
 		{"proc.kill", func() []string { return []string{ints()} }}, {"proc.modules", func() []string { return []string{ints()} }},
 		{"proc.grep", func() []string { return []string{texts()} }}, {"job.list", func() []string { return nil }},
